@@ -343,6 +343,13 @@ def thorough_extras(vc, prop, report, code):
     sweep = os.path.join(ROOT, "tools", "seed_sweep.sh")
     seeds = sorted(d for d in os.listdir(os.path.join(ROOT, "seeded")) if d.rstrip("abcdefghijklmnopqrstuvwxyz") == prop
                    and os.path.isfile(os.path.join(ROOT, "seeded", d, "patch.diff"))) if os.path.isdir(os.path.join(ROOT, "seeded")) else []
+    def _neutralised(sd):
+        # a seeded change that a later repair of the repository has made harmless (its own demo passes): kept for the record, not swept
+        try:
+            return bool(json.load(open(os.path.join(ROOT, "seeded", sd, "meta.json"))).get("neutralised_by"))
+        except Exception:
+            return False
+    seeds = [sd for sd in seeds if not _neutralised(sd)]
     if seeds and os.path.isfile(sweep) and not os.environ.get("PYVC_NO_SEED_SWEEP"):
         env = dict(os.environ, PYVC_NO_SEED_SWEEP="1", VERIF_TIER="quick", SEED_SCRATCH=f"/tmp/pyvc_sens_{prop}_{os.getpid()}")
         out = []
